@@ -21,6 +21,11 @@ type PipeCase struct {
 	Entry    int      `json:"entry"`
 	Oracle   []string `json:"oracle"`
 	Scenario string   `json:"scenario"`
+	// the consumer of the event channel: channel capacity (-1 = the harness default, generous buffer) and an optional
+	// stall of StallMs milliseconds after it has received StallAt events - a legal, merely slow reader
+	Cap      int      `json:"cap"`
+	StallAt  int      `json:"stallAt"`
+	StallMs  int      `json:"stallMs"`
 	Profile  string   `json:"profile"`
 	Data     string   `json:"data"`
 }
@@ -113,6 +118,9 @@ func dataVariants(repo string) []dataVariant {
 		{"bad-language", `{"@id":"http://a","http://p":{"@value":"x","@language":5}}`, 4, "err"},
 		{"reverse-scalar", `{"@id":"http://a","@reverse":{"http://p":"x"}}`, 4, "err"},
 		{"keyword-redefinition", `{"@context":{"@id":"http://x"},"@id":"http://a"}`, 4, "err"},
+		// IRI references the processor cannot parse while resolving them against a base: json-gold panics, NormalizeOrError recovers
+		{"bad-iri-id", `{"@context":{"@base":"amf://id#"},"@id":"%xsd:boolean","@type":"http://ex.org/v#T"}`, 4, "panic"},
+		{"bad-iri-link", `{"@context":{"@base":"amf://id#"},"@id":"http://a","@type":"http://ex.org/v#T","http://ex.org/v#p0":{"@id":":foo"}}`, 4, "panic"},
 	}
 	// the RAML source of a fixture passed as data, and a fixture truncated at many offsets
 	if b, err := os.ReadFile(repo + "/test/data/integration/profile1/negative.data.raml"); err == nil {
@@ -203,7 +211,11 @@ func genPipe(g *G, repo string, out io.Writer, full bool) {
 	enc := json.NewEncoder(out)
 	id := 0
 	emit := func(entry int, scen string, prof, data string, oracle []string) {
-		enc.Encode(PipeCase{Op: "pipe", Id: id, Entry: entry, Oracle: oracle, Scenario: scen, Profile: prof, Data: data})
+		enc.Encode(PipeCase{Op: "pipe", Id: id, Entry: entry, Oracle: oracle, Scenario: scen, Cap: -1, StallAt: -1, Profile: prof, Data: data})
+		id++
+	}
+	emitSlow := func(entry int, scen string, prof, data string, oracle []string, cap, at, ms int) {
+		enc.Encode(PipeCase{Op: "pipe", Id: id, Entry: entry, Oracle: oracle, Scenario: scen, Cap: cap, StallAt: at, StallMs: ms, Profile: prof, Data: data})
 		id++
 	}
 	dvs := dataVariants(repo)
@@ -242,4 +254,17 @@ func genPipe(g *G, repo string, out io.Writer, full bool) {
 	for _, entry := range []int{0, 1, 2, 3} {
 		emit(entry, "eval:conflict", evalConflictProfile, okData, oracleFor(6, "err"))
 	}
+	// slow consumers on small channels: whatever the reader's pace, the same events arrive in the same order
+	stalls := []int{0, 1, 3, 5, 8, 11, 12, 13}
+	if full {
+		stalls = []int{0, 1, 2, 3, 4, 5, 6, 7, 8, 9, 10, 11, 12, 13}
+	}
+	for k, at := range stalls {
+		entry := []int{0, 2, 1, 3}[k%4]
+		cap := []int{0, 1, 0, 2}[k%4]
+		ms := []int{700, 1200}[k%2]
+		emitSlow(entry, fmt.Sprintf("slow-consumer:stall-after-%d-cap-%d", at, cap), okProfile, okData, oracleFor(-1, ""), cap, at, ms)
+	}
+	emitSlow(4, "slow-consumer:compile", okProfile, okData, oracleFor(-1, ""), 0, 1, 700)
+	emitSlow(0, "slow-consumer:failing-data", okProfile, "{ not json", oracleFor(3, "err"), 0, 2, 700)
 }
